@@ -16,7 +16,7 @@ package sort2
 //@ requires [less-transitive] forall(a, T, forall(b, T, forall(c, T, implies(call(less, a, b) && call(less, b, c), call(less, a, c)))))
 //@ requires [less-incomparability-transitive] forall(a, T, forall(b, T, forall(c, T, implies(!call(less, a, b) && !call(less, b, a) && !call(less, b, c) && !call(less, c, b), !call(less, a, c) && !call(less, c, a)))))
 //@ assigns elems(x), tags(x), SortPerm[backing(x)], SortInv[backing(x)]
-//@ ensures [permuted] forall(i, int, implies(0 <= i && i < len(x), 0 <= SortPerm[backing(x)][i] && SortPerm[backing(x)][i] < len(x) && x[i] == oldat(x, SortPerm[backing(x)][i]) && tag(x, i) == oldtag(x, SortPerm[backing(x)][i])), tag(x, i))
-//@ ensures [perm-bijective] forall(k, int, implies(0 <= k && k < len(x), 0 <= SortInv[backing(x)][k] && SortInv[backing(x)][k] < len(x) && SortPerm[backing(x)][SortInv[backing(x)][k]] == k))
-//@ ensures [perm-injective] forall(i, int, forall(j, int, implies(0 <= i && i < j && j < len(x), SortPerm[backing(x)][i] != SortPerm[backing(x)][j])))
+//@ ensures [permuted] forall(i, int, implies(0 <= i && i < len(x), 0 <= SortPerm[backing(x)][i] && SortPerm[backing(x)][i] < len(x) && x[i] == oldat(x, SortPerm[backing(x)][i]) && tag(x, i) == oldtag(x, SortPerm[backing(x)][i])), tag(x, i), x[i], SortPerm[backing(x)][i])
+//@ ensures [perm-bijective] forall(k, int, implies(0 <= k && k < len(x), 0 <= SortInv[backing(x)][k] && SortInv[backing(x)][k] < len(x) && SortPerm[backing(x)][SortInv[backing(x)][k]] == k), SortInv[backing(x)][k])
+//@ ensures [perm-injective] forall(i, int, forall(j, int, implies(0 <= i && i < j && j < len(x), SortPerm[backing(x)][i] != SortPerm[backing(x)][j]), SortPerm[backing(x)][j]), SortPerm[backing(x)][i])
 //@ ensures [sorted] forall(i, int, forall(j, int, implies(0 <= i && i < j && j < len(x), !call(less, x[j], x[i])), tag(x, j)), tag(x, i))
